@@ -145,7 +145,9 @@ func (h *helloSpec) computeJA3() {
 var c13Suites = []uint16{0xc02f, 0xc02b, 0xc030, 0xc02c, 0xc013, 0xc014, 0x009c, 0x009d, 0x002f, 0x0035, 0x000a, 0xcca8, 0xcca9, 0x1301, 0x1302, 0x1303, 0x00ff, 0x5600, 0xc009, 0xc00a, 0x0005, 0x0004, 0x1234, 0xfefe}
 var c13Ext = []uint16{5, 13, 16, 18, 23, 35, 21, 0xff01, 13172, 0x1234, 0x002b, 0x002d, 0x0033, 0x7777, 65000}
 var c13Curves = []uint16{29, 23, 24, 25, 256, 257, 0x6399}
-var c13Names = []string{"", "a.example", "b.example.org"}
+
+// (host names are case-insensitive on the wire but the property wants the name as sent: one name has capitals)
+var c13Names = []string{"", "a.example", "b.example.org", "Portal.C.Example.ORG"}
 
 // nearGrease: code points that look like GREASE (0x?a?a) but are not - both bytes must be equal for GREASE - and
 // arbitrary unassigned code points.  They are ordinary values for JA3.
